@@ -38,7 +38,11 @@ def run_variant(ctx, variant, scenarios, modes, agg):
     import concurrent.futures as cf
 
     def one(job):
-        return job, core.run(job["cmd"], 1800, env=core.env_for(variant))
+        env = core.env_for(variant)
+        if variant == "asan":
+            env["VH_LSAN"] = "1"
+            env["ASAN_OPTIONS"] = env["ASAN_OPTIONS"].replace("detect_leaks=0", "detect_leaks=1")
+        return job, core.run(job["cmd"], 1800, env=env)
 
     with cf.ThreadPoolExecutor(max_workers=16) as ex:
         results = list(ex.map(one, jobs))
@@ -102,6 +106,23 @@ def run_variant(ctx, variant, scenarios, modes, agg):
                     ctx.violation("bad-free scenario=%s failed-alloc=%s" % (sc, fsite), "scenario %s k=%d: %d frees of blocks that are not live (double/foreign free)" % (sc, o["k"], o["bad_free"]), o)
                 if ok:
                     st["clean"] += 1
+            elif ev == "lsan":
+                # LeakSanitizer: memory unreachable after the scenario freed everything and the library shut down.  Blocks that came through the
+                # allocator table (va_malloc/va_realloc frames) are already judged by the table oracle; the others were obtained from libc
+                # on the library's behalf (getaddrinfo, ...) and never released.
+                f = fired.get(o["pid"])
+                fsite = site(f["bt"], sym) if f else "not-fired"
+                for blk in re.split(r"\n(?=(?:Direct|Indirect) leak of )", o.get("stderr", "")):
+                    if not blk.startswith("Direct leak"):
+                        continue
+                    fr = re.findall(r"#\d+ 0x[0-9a-f]+ in (\S+)", blk)
+                    if any(x in ("va_malloc", "va_realloc") for x in fr):
+                        continue
+                    libfr = [x for x in fr if re.match(r"pp?_[a-z]", x)]
+                    st["leak"] += 1
+                    ctx.violation("leak-outside-allocator-table via=%s in=%s failed-alloc=%s" % (fr[1] if len(fr) > 1 else (fr[0] if fr else "?"), "<".join(libfr[:2]) or "?", fsite),
+                                  "scenario %s k=%d %s: %s ; obtained from the C library during a call of %s and never released" % (sc, o["k"], "sticky" if o["sticky"] else "once", blk.splitlines()[0], "<".join(libfr[:2]) or "?"),
+                                  {"case": {k: v for k, v in o.items() if k != "stderr"}, "report": blk[:3000]})
             elif ev == "crash":
                 st["crash"] += 1
                 f = fired.get(o["pid"])
